@@ -523,17 +523,54 @@ def sbConsume (s : SB) (amt : Nat) : Option SB :=
   if s.pos + amt ≥ 18446744073709551616 then none
   else some { s with pos := min (s.pos + amt) s.cap }
 
+/-- `std::str::from_utf8(bytes).is_ok()` (external: core's validator, tied by correspondence) -/
+def validUtf8 (bs : Bytes) : Bool := ByteArray.validateUTF8 ⟨bs.toArray⟩
+
+/-- `WithSidebands::peek_data_line()`: the parent's `peek_line`, data lines only; everything that
+is not a data line, an error or an io error is `None` -/
+def sbPeekDataLine (c : Consts) (s : SB) : Res × SB :=
+  match peekLine c s.r with
+  | (.line (.data d), r1) => (.line (.data d), { s with r := r1 })
+  | (.line _, r1) => (.none, { s with r := r1 })
+  | (x, r1) => (x, { s with r := r1 })
+
+/-- `WithSidebands::read_data_line()`: `assert_eq!(self.cap, 0)`, then the parent's `read_line` -/
+def sbReadDataLine (c : Consts) (s : SB) : Res × SB :=
+  if s.cap ≠ 0 then (.panic, s)
+  else ((readLine c s.r).1, { s with r := (readLine c s.r).2 })
+
+inductive StrRes
+  | ok (bs : Bytes)      -- the bytes pushed onto the `String`
+  | utf8                 -- `io::Error(Other, Utf8Error)`
+  | err (e : SBErr)
+  | panic
+  deriving Repr, DecidableEq
+
+/-- `WithSidebands::read_line_to_string(buf)`: `assert_eq!(self.cap, 0)`, one `fill_buf`, UTF-8
+check, `self.cap = 0` (only) on success -/
+def sbReadLineToString (c : Consts) (s : SB) : StrRes × SB :=
+  if s.cap ≠ 0 then (.panic, s)
+  else match fillBuf c s with
+    | (.panic, s1) => (.panic, s1)
+    | (.err e, s1) => (.err e, s1)
+    | (.ok bs, s1) => if validUtf8 bs then (.ok bs, { s1 with cap := 0 }) else (.utf8, s1)
+
 /-- one call on `WithSidebands` -/
 inductive SBCall
   | fill                 -- `fill_buf()`
   | consume (amt : Nat)  -- `consume(amt)`
   | read (n : Nat)       -- `read(&mut [0; n])`
+  | peekData             -- `peek_data_line()`
+  | readData             -- `read_data_line()`
+  | readString           -- `read_line_to_string(&mut String::new())`
   deriving Repr, DecidableEq
 
 /-- what a call returned -/
 inductive SBObs
-  | bytes (bs : Bytes)   -- `Ok(slice)` of `fill_buf` / the bytes `read` copied
+  | bytes (bs : Bytes)   -- `Ok(slice)` of `fill_buf` / the bytes `read` copied / the string read
   | consumed
+  | line (x : Res)       -- what `peek_data_line` / `read_data_line` returned
+  | utf8
   | err (e : SBErr)
   | panic
   deriving Repr, DecidableEq
@@ -551,6 +588,20 @@ def sbCall (c : Consts) (s : SB) : SBCall → SBObs × SB
   | .read n =>
     match sbRead c s n with
     | (.ok bs, s1) => (.bytes bs, s1)
+    | (.err e, s1) => (.err e, s1)
+    | (.panic, s1) => (.panic, s1)
+  | .peekData =>
+    match sbPeekDataLine c s with
+    | (.panic, s1) => (.panic, s1)
+    | (x, s1) => (.line x, s1)
+  | .readData =>
+    match sbReadDataLine c s with
+    | (.panic, s1) => (.panic, s1)
+    | (x, s1) => (.line x, s1)
+  | .readString =>
+    match sbReadLineToString c s with
+    | (.ok bs, s1) => (.bytes bs, s1)
+    | (.utf8, s1) => (.utf8, s1)
     | (.err e, s1) => (.err e, s1)
     | (.panic, s1) => (.panic, s1)
 
@@ -720,18 +771,24 @@ def parseHandler? (s : String) : Option (Bool × Option Nat) :=
     | 'i' :: rest => (String.ofList rest).toNat?.map fun k => (true, some k)
     | _ => none
 
-/-- `f` = fill_buf, `c<amt>` = consume, `r<n>` = read into n bytes; comma separated -/
+/-- `f` = fill_buf, `c<amt>` = consume, `r<n>` = read into n bytes, `p` = peek_data_line,
+`l` = read_data_line, `s` = read_line_to_string; comma separated -/
 def parseSBCalls? (s : String) : Option (List SBCall) :=
   (s.splitOn ",").mapM fun x =>
     match x.toList with
     | ['f'] => some SBCall.fill
     | 'c' :: rest => (String.ofList rest).toNat?.map SBCall.consume
     | 'r' :: rest => (String.ofList rest).toNat?.map SBCall.read
+    | ['p'] => some SBCall.peekData
+    | ['l'] => some SBCall.readData
+    | ['s'] => some SBCall.readString
     | _ => none
 
 def sbObsObs : SBObs → String
   | .bytes bs => s!"b:{bobs bs}"
   | .consumed => "c"
+  | .line x => s!"[{resObs x}]"
+  | .utf8 => "err:utf8"
   | .err e => s!"err:{sbErrObs e}"
   | .panic => "panic"
 
